@@ -387,9 +387,9 @@ def process_mismatch(sc, a, b, rel=1e-6):
         w = a.feed_compositions[k].p
         if 0 < y < 1 and 0 < w < 1:
             stol = 4 * rel * (1 + 1 / min(y, 1 - y) + 1 / min(w, 1 - w))
-            if abs(sa[k] * sb[k] - 1) > stol:
+            if math.isfinite(sa[k]) and math.isfinite(sb[k]) and sa[k] != 0 and sb[k] != 0 and abs(sa[k] * sb[k] - 1) > stol:
                 return {"what": "separation factor does not invert", "step": k, "sf": float(sa[k]), "twin": float(sb[k])}
-        if abs(la[k] * lb[k] - 1) > 4 * rel:
+        if math.isfinite(la[k]) and math.isfinite(lb[k]) and abs(la[k] * lb[k] - 1) > 4 * rel:
             return {"what": "selectivity does not invert", "step": k, "sel": float(la[k]), "twin": float(lb[k])}
     return None
 
